@@ -35,10 +35,17 @@ REGISTRY = dict(
               "with the model's occurrence set at every rename position + direct judge (check / run / stale references)",
     design="DESIGN.md §4 C30")
 
-NAMES = ["x", "y", "z", "a", "b", "c", "k", "w", "n", "v", "p", "q"]
+NAMES = ["x", "y", "z", "a", "b", "c", "k", "w", "n", "v", "p", "q", "\u00e9", "\u6570", "caf\u00e9"]
+# words for string literals: Latin-1, arrows, CJK, a combining mark, an astral (two UTF-16 units) emoji
+WORDS = ["is", "and", "caf\u00e9", "\u2192", "\u65e5\u672c\u8a9e", "e\u0301", "\U0001F600", "na\u00efve \u00df"]
 FNAMES = ["f", "g", "h", "u", "r"]
 ALL = NAMES + FNAMES + ["s", "t", "m", "d", "e", "i", "j"]
 NAME_ID = {}
+
+
+def u16(t):
+    """length in UTF-16 code units (what LSP positions count)"""
+    return len(t.encode("utf-16-le")) // 2
 
 
 def nid(name):
@@ -69,7 +76,7 @@ class Gen:
     def ident(self, name):
         p = self.next
         self.next += 1
-        self.pos[p] = (len(self.lines) - 1, len(self.lines[-1]), name)
+        self.pos[p] = (len(self.lines) - 1, u16(self.lines[-1]), name, len(self.lines[-1]))
         self.emit(name)
         self.used.append(name)
         return p
@@ -137,14 +144,18 @@ class Gen:
         return [4, [4, he, a], b]
 
     def expr_str(self, scope, must=None):
-        """a string literal that mentions identifiers in scope (their text must never be edited)"""
+        """a string literal that mentions identifiers in scope (their text must never be edited) between non-ASCII words"""
         names = [n for n, _ in scope[:4]] or ["x"]
-        words = [self.rng.choice(names + ["is", "and"]) for _ in range(self.rng.randint(1, 3))]
+        words = [self.rng.choice(names + WORDS) for _ in range(self.rng.randint(1, 3))]
         if must:
             words.insert(self.rng.randint(0, len(words)), must)
         s = " ".join(words)
         self.emit('"%s"' % s)
         self.feat.add("string literal with identifier text")
+        if any(ord(c) > 127 for c in s):
+            self.feat.add("string literal with non-ASCII text")
+        if any(ord(c) > 0xFFFF for c in s):
+            self.feat.add("string literal with an astral character")
         return [2, [ord(c) for c in s]]
 
     def pick_name(self, scope, local, pool, shadow_p=0.45, avoid=()):
@@ -177,7 +188,7 @@ class Gen:
             if level < 2:
                 kinds += ["fun1", "fun2"]
             if level < 1:
-                kinds += ["hf", "defstr", "defstr", "print", "print"]
+                kinds += ["hf", "defstr", "defstr", "strafter", "print", "print", "printstr", "tower"]
             k = r.choice(kinds)
             self.emit(" " * indent)
             if k == "defint":
@@ -215,6 +226,97 @@ class Gen:
                     local.add(y)
                     scope.insert(0, (y, "I"))
                     self.feat.add("use on the same line as a string literal that contains the name")
+            elif k == "strafter":
+                # a definition that uses a name, then on the same line a string literal that contains the name
+                ints = self.visible(scope, "I")
+                if not ints:
+                    self.lines[-1] = self.lines[-1][:len(self.lines[-1]) - indent]
+                    continue
+                z = r.choice(ints)
+                y = self.pick_name(scope, local, NAMES, shadow_p=0.0, avoid=used | {z})
+                p2 = self.ident(y)
+                self.emit(" = ")
+                e2 = [3, [0, self.ident(z), nid(z)], None]
+                self.emit(" + ")
+                e2[2] = self.expr_int([sc for sc in scope if sc[0] != y], 1, paren=True)
+                stmts.append(("def", p2, y, e2))
+                self.binders.append((p2, y))
+                local.add(y)
+                scope.insert(0, (y, "I"))
+                self.emit("; ")
+                x = self.pick_name(scope, local, ["s", "t", "m", "d"], shadow_p=0.0, avoid=used)
+                p = self.ident(x)
+                self.emit(" = ")
+                e = self.expr_str(scope, must=z)
+                stmts.append(("def", p, x, e))
+                self.binders.append((p, x))
+                local.add(x)
+                scope.insert(0, (x, "S"))
+                self.feat.add("string literal after a use on the same line")
+            elif k == "printstr":
+                # print! "..." + s  /  print! s + "...": a literal before / after a reference in one expression
+                strs = self.visible(scope, "S")
+                if not strs:
+                    self.lines[-1] = self.lines[-1][:len(self.lines[-1]) - indent]
+                    continue
+                x = r.choice(strs)
+                self.emit("print! ")
+                if r.random() < 0.6:
+                    a = self.expr_str(scope, must=x)
+                    self.emit(" + ")
+                    e = [3, a, [0, self.ident(x), nid(x)]]
+                    self.feat.add("reference after a string literal in one expression")
+                else:
+                    v = [0, self.ident(x), nid(x)]
+                    self.emit(" + ")
+                    e = [3, v, self.expr_str(scope, must=x)]
+                stmts.append(("print", e))
+            elif k == "tower":
+                # g(n) = (h(n) = (k(n) = n + c; k(n) + n); h(n) + n): the same name bound at every level
+                n0 = self.pick_name(scope, local, NAMES, shadow_p=0.7, avoid=used)
+                fs = []
+                lvl = indent
+                stack = []
+                depth_t = r.randint(2, 3)
+                fl = set(local)
+                for d_ in range(depth_t):
+                    fn = self.pick_name(scope if d_ == 0 else [], fl | set(fs) | {n0}, FNAMES + ["i", "j", "e"], shadow_p=0.0, avoid=used if d_ == 0 else ())
+                    if d_ > 0:
+                        self.emit(" " * lvl)
+                    pf = self.ident(fn)
+                    self.binders.append((pf, fn))
+                    self.emit("(")
+                    pp = self.ident(n0)
+                    self.binders.append((pp, n0))
+                    self.emit(": Int) =")
+                    fs.append(fn)
+                    stack.append((pf, fn, pp))
+                    lvl += 4
+                    if d_ < depth_t - 1:
+                        self.newline()
+                # innermost body on the same line
+                self.emit(" ")
+                body = [0, [3, [0, self.ident(n0), nid(n0)], [1, r.randint(0, 9)]]]
+                self.emit(" + %d" % body[1][2][1])
+                self.newline()
+                # unwind: each enclosing level returns inner(n) + n
+                for d_ in range(depth_t - 2, -1, -1):
+                    lvl -= 4
+                    self.emit(" " * lvl)
+                    pf_in, fn_in, pp_in = stack[d_ + 1]
+                    call = [4, [0, self.ident(fn_in), nid(fn_in)], None]
+                    self.emit("(")
+                    call[2] = [0, self.ident(n0), nid(n0)]
+                    self.emit(") + ")
+                    ret = [0, [3, call, [0, self.ident(n0), nid(n0)]]]
+                    self.newline()
+                    body = [2, pf_in, nid(fn_in), pp_in, nid(n0), [], body, ret]
+                pf0, fn0, pp0 = stack[0]
+                stmts.append(("fun", pf0, fn0, pp0, n0, [], body))
+                local.add(fn0)
+                scope.insert(0, (fn0, "F1"))
+                self.feat.add("the same name bound as parameter at %d nested levels" % depth_t)
+                continue
             elif k == "print":
                 self.emit("print! ")
                 strs = self.visible(scope, "S")
@@ -331,9 +433,15 @@ def gen_program(rng):
 
 # ------------------------------------------------------------------ editing
 def apply_edits(text, edits):
-    """edits: (sl, sc, el, ec, new) on ASCII text; applied back to front"""
+    """edits: (sl, sc, el, ec, new) with UTF-16 columns (LSP); applied back to front"""
     lines = text.split("\n")
-    off = lambda l, c: sum(len(x) + 1 for x in lines[:l]) + c
+
+    def off(l, c):
+        line = lines[l] if l < len(lines) else ""
+        k = 0
+        while k < len(line) and u16(line[:k]) < c:
+            k += 1
+        return sum(len(x) + 1 for x in lines[:l]) + k
     spans = sorted(((off(e[0], e[1]), off(e[2], e[3]), e[4]) for e in edits), reverse=True)
     for a, b, new in spans:
         text = text[:a] + new + text[b:]
@@ -454,10 +562,10 @@ def evaluate(ctx, runner, progs, new_name="zq9", budget=None):
     results = []
     jobs = []      # (result index, binder, pos, edited text, S)
     for i, prog in enumerate(progs):
-        res = {"corr": [], "fails": [], "requests": 0, "edit_sets": 0, "orig": orig[i], "hyp_ok": minfo[i][0] == 1 and minfo[i][1] == 1}
+        res = {"corr": [], "fails": [], "known": [], "requests": 0, "edit_sets": 0, "orig": orig[i], "hyp_ok": minfo[i][0] == 1 and minfo[i][1] == 1}
         results.append(res)
         pos = {int(k): v for k, v in prog["pos"].items()}
-        rng_of = {p: (v[0], v[1], v[0], v[1] + len(v[2])) for p, v in pos.items()}
+        rng_of = {p: (v[0], v[1], v[0], v[1] + u16(v[2])) for p, v in pos.items()}
         by_range = {v: k for k, v in rng_of.items()}
         if not res["hyp_ok"]:
             res["corr"].append({"why": "generator: positions not distinct or the new name occurs in the program"})
@@ -493,7 +601,32 @@ def evaluate(ctx, runner, progs, new_name="zq9", budget=None):
             if status == -999:
                 res["fails"].append(dict(where, why="the rename handler panicked"))
                 continue
+            if status == 1 and not edits:
+                # known finding C30-position-after-non-ascii: the token stream's end columns count bytes, so a position
+                # behind a literal with multi-byte characters is taken to lie inside that literal
+                tl = prog["text"].split("\n")[pos[p][0]]
+                k = next(k for k in range(len(tl) + 1) if u16(tl[:k]) >= pos[p][1])
+                if any(ord(ch) > 127 for ch in tl[:k]):
+                    res["known"].append(dict(where, id="C30-position-after-non-ascii"))
+                    continue
             differs = got_ranges != want_ranges or bool(foreign) or bool(bad_text) or status != 1
+            if differs and status == 1 and not foreign and not bad_text:
+                # the other face of C30-position-after-non-ascii: the symbol BEFORE the literal is renamed instead
+                tl = prog["text"].split("\n")[pos[p][0]]
+                k = next(k for k in range(len(tl) + 1) if u16(tl[:k]) >= pos[p][1])
+                others = [sorted(rng_of[q] for q in o[2]) for o in {v[0]: v for v in occ_of.values()}.values() if o[0] != b]
+                if any(ord(ch) > 127 for ch in tl[:k]) and got_ranges in others:
+                    res["known"].append(dict(where, id="C30-position-after-non-ascii", renamed_instead=got_ranges))
+                    continue
+            if differs and status == 1 and not foreign and not bad_text:
+                # known finding C30-astral-columns: the edit ranges count characters, LSP counts UTF-16 units; they
+                # differ after a character outside the BMP on the same line
+                tl = prog["text"].split("\n")
+                cc = lambda q: next(k for k in range(len(tl[pos[q][0]]) + 1) if u16(tl[pos[q][0]][:k]) >= pos[q][1])
+                chars = sorted((pos[q][0], cc(q), pos[q][0], cc(q) + len(pos[q][2])) for q in occ)
+                if got_ranges == chars:
+                    res["known"].append(dict(where, id="C30-astral-columns", impl=got_ranges, utf16=want_ranges))
+                    continue
             if differs:
                 res["corr"].append(dict(where, why="edit set differs from the model's occurrence set", status=status,
                                         impl=got_ranges, model=want_ranges, foreign=foreign))
@@ -524,7 +657,7 @@ def evaluate(ctx, runner, progs, new_name="zq9", budget=None):
             new_text = apply_edits(prog["text"], [(e[1], e[2], e[3], e[4], e[5]) for e in edits])
             jobs.append((i, key, where, new_text, S, b, x))
     # judge: model on the edited AST + erg on the edited text
-    jm = runner.model.run([[4, progs[j[0]]["ast"], j[4], y, j[5], nid(j[6])] for j in jobs]) if jobs else []
+    jm = runner.model.run([[4, progs[j[0]]["ast"], j[4], y, j[5], j[6]] for j in jobs]) if jobs else []   # j[6]: the name's number, from the model
     t1 = time.time()
     with ThreadPoolExecutor(max_workers=8) as ex:
         runs = list(ex.map(lambda j: runner.erg_run(j[3]), jobs))
@@ -607,6 +740,13 @@ def _run(ctx, proof, runner):
             nb = len(prog["binders"])
             ctx.case(prog["text"], nontrivial=nb >= 2 and r["orig"][0] == "ok",
                      sample={"program": prog["text"], "bindings": nb, "rename_requests": r["requests"]} if nb >= 4 else None)
+            for kf in r["known"]:
+                ent = next((k for k in ctx.known() if k.get("id") == kf["id"]), None)
+                if ent is None:
+                    r["fails"].append(dict(kf, why="unlisted: " + kf["id"]))
+                else:
+                    ctx.known_finding(ent)
+                    ctx.count("known finding reproduced: " + kf["id"])
             for f in r["fails"]:
                 n_fail += 1
                 if n_fail <= 3:
